@@ -112,6 +112,8 @@ class Model(object):
                 if not p.required and p.name not in ('TrueThreshold', 'FalseThreshold', 'TrueThresholdZScore', 'FalseThresholdZScore'):
                     continue
                 args[p.name] = NUM_DEFAULTS.get(p.name, 0.5)
+                if self.alt % 2 == 1 and p.name == 'TrueThreshold':
+                    args[p.name] = 0        # alt 1: a threshold of exactly zero (an integer literal) is a threshold like any other
             elif p.kind == 'numlist':
                 if any(q.name == 'IgnoreZeros' for q in sp.params):
                     args[p.name] = list(MTM)
@@ -161,6 +163,10 @@ def build_pair(cfg):
     m = Model(cfg.get('alt', 0))
     cnt = [0]
 
+    def iname(k):
+        # alt 1: input names that differ from the command names P, C, E only in letter case (result names are case sensitive)
+        return (['p', 'c', 'e'] + ['in%d' % i for i in range(4, 12)])[k - 1] if m.alt % 2 == 1 else 'In%d' % k
+
     def feed(sp, use=None, use_param=None):
         refs = {}
         for p in array_params(sp):
@@ -169,14 +175,14 @@ def build_pair(cfg):
                     refs[p.name] = use
                 else:
                     cnt[0] += 1
-                    refs[p.name] = m.add_input('In%d' % cnt[0], bool(p.fuzzy))
+                    refs[p.name] = m.add_input(iname(cnt[0]), bool(p.fuzzy))
             else:
                 items = []
                 if use is not None and p.name == use_param:
                     items.append(use)
                 while len(items) < 2:       # n-ary commands always get two inputs (FuzzyXOr needs a second-truest value)
                     cnt[0] += 1
-                    items.append(m.add_input('In%d' % cnt[0], bool(p.fuzzy) if p.fuzzy is not None else (use is not None and prod.fuzzy_out)))
+                    items.append(m.add_input(iname(cnt[0]), bool(p.fuzzy) if p.fuzzy is not None else (use is not None and prod.fuzzy_out)))
                 refs[p.name] = items
         return refs
     rp = feed(prod)
